@@ -283,6 +283,10 @@ def random_case(rng, cid, repeat_sn=False):
   sn = rng.choice([0, 1, 1, 250, 255, 1000, 65530]) if not repeat_sn else rng.choice([0, 1, 100, 200])
   t = None
   nsub = rng.randint(1, 6) if rng.random() < 0.96 else rng.randint(40, 120)      # now and then a file of ordinary length
+  if dfc == "STL30.01":
+    # (not at 30 frames/s: the known drop-frame reading of STL30.01 moves times across the programme start, subtitles are
+    # dropped, and in a long file every later subtitle would be compared with the wrong one)
+    nsub = min(nsub, 6)
   many_rows = nsub >= 40 and not tt and rng.random() < 0.6
   if many_rows:
     # open subtitles on a tall grid, placed all over it: dozens of distinct vertical positions (and regions) in one file
